@@ -90,7 +90,9 @@ prop('C08', 'other',
 prop('C11', 'other',
      'PROVED (all inputs): divide_set, divide_set_value, divide_zero, divide_null, assert_no_divide, divide_binomial '
      '(conservation for whatever numpy returns) and divide_split: for every integer (any size, any sign) the daughters sum '
-     'to the mother and differ by at most 1; floats are halved. BOUNDED: Store.divide end to end on the real engine (all '
+     'to the mother and differ by at most 1; floats are halved; divide_split_dict: every key of the mother is in exactly one '
+     'daughter with the value it had, no daughter holds another key, None gives two empty dictionaries (assuming that '
+     'list(d.items()) enumerates every key once, in an order fixed by the dict value). BOUNDED: Store.divide end to end on the real engine (all '
      'registered dividers incl. split_dict, dividers with config, branch-level dividers, explicit daughter states, '
      'independence of daughters under in-place updates, two generations).',
      drivers=[('bounded.c11', []), ('bounded.struct', ['--prop', 'C11'])], assumptions=[FLOATS])
